@@ -1,6 +1,10 @@
 package variants
 
-import "github.com/pip-services3-gox/pip-services3-commons-gox/errors"
+import (
+	"math"
+
+	"github.com/pip-services3-gox/pip-services3-commons-gox/errors"
+)
 
 type IVariantOperationsOverrides interface {
 	Convert(value *Variant, newType VariantType) (*Variant, error)
@@ -300,11 +304,8 @@ func (c *AbstractVariantOperations) Pow(
 
 	// Performs operation.
 	switch value1.Type() {
-	case Integer:
-	case Long:
-	case Float:
-	case Double:
-		// Converts second operant to the type of the first operand.
+	case Integer, Long, Float, Double:
+		// Converts both operands to double.
 		var err error
 		value1, err = c.Overrides.Convert(value1, Double)
 		if err != nil {
@@ -316,7 +317,7 @@ func (c *AbstractVariantOperations) Pow(
 			return nil, err
 		}
 
-		result.SetAsDouble(value1.AsDouble() * value2.AsDouble())
+		result.SetAsDouble(math.Pow(value1.AsDouble(), value2.AsDouble()))
 		return result, nil
 	}
 
